@@ -226,7 +226,7 @@ SPEC = {
         "site_verdict_is_resolution_of_visible", "visible_prefix_independent", "nothing_visible_is_unknown_name",
         "template_body_site_resolved_at_first_instantiation", "observations_are_at_places",
         # the source text of the transcribed routines, re-extracted each run
-        "resolve_shape_as_modelled", "resolve_source_as_transcribed"]],
+        "resolve_shape_as_modelled", "resolution_reads_no_call_history", "resolve_source_as_transcribed"]],
     "harness": "c16",
     "nontrivial": nontrivial,
     "finding_key": finding_key,
